@@ -24,6 +24,7 @@ class Table:
         #                      next state name, node)
         self.node = first_node
         self.duplicates = []
+        self.malformed = []     # rows that are not (state, input): (f, state)
         ev = ModEval(model, module, cls)
         try:
             table = ev.value_of(name)
@@ -38,9 +39,15 @@ class Table:
         for kv, v in table.items():
             if not (isinstance(kv, tuple) and len(kv) == 2 and
                     all(isinstance(x, EnumVal) for x in kv)):
-                raise AnalysisError('transition key shape: %r' % (kv,))
+                # a row no (state, input) lookup can find: the cell it was
+                # meant for is absent
+                self.malformed.append('key %r' % (kv,))
+                continue
             if not (isinstance(v, (tuple, list)) and len(v) == 2):
-                raise AnalysisError('transition value shape: %r' % (v,))
+                # unpacking `func, target = row` fails when the row is used
+                self.malformed.append('value of %s: %r' % (
+                    '/'.join(x.name for x in kv), v))
+                continue
             fn, nv = v
             if fn is None:
                 fname = None
